@@ -31,7 +31,15 @@ def run(ctx):
         unitscheck.run_menu(ctx, name, menu, depth)
     from checks import mconvcheck
     mconvcheck.rejected_updates(ctx)
+    from checks import unitstrace
+    unitstrace.run(ctx, 150 if ctx.tier == 'quick' else 3000, 30 if ctx.tier == 'quick' else 40)
 
 
 def replay(ctx, rp):
+    if rp['replay'].get('kind') == 'unitstrace':
+        from checks import unitstrace
+        return unitstrace.replay(ctx, rp)
+    if rp['replay'].get('kind') == 'RateTable':
+        from checks import mconvcheck
+        return mconvcheck.replay(ctx, rp)
     unitscheck.replay_path(ctx, rp)
